@@ -138,10 +138,25 @@ def run(tier, rep):
     rnd = random.Random(seed)
     pool = [r for r in res.records if r['pat'] == 1 and r['dir'] == 1]
     rnd.shuffle(pool)
-    for rec in pool[:(60 if tier == 'quick' else 600)]:
+    for rec in pool[:(30 if tier == 'quick' else 600)]:
         mm = rec['n'] // 2 + rec['m']
         for N in {2 * mm + 2, 2 * mm + 3, rnd.randint(2 * mm + 4, 60)}:
             check_float_case(fb, rec, rnd, rep, stats, N)
+    # every (n, m) of the property's range - also those whose minimal grid is beyond the 32-bit exact family (N > 14) -
+    # with the specification's polynomial shapes of degree n, 2mm-1 and 2mm (Polys / PolyDeriv interpreted in Fractions)
+    import math
+    for n in range(1, 7):
+        for m in range(1, 5):
+            mm = n // 2 + m
+            for d in sorted({n, 2 * mm - 1, 2 * mm}):
+                shapes = [[Fraction(1) if k % 2 == 0 else Fraction(-2) for k in range(d + 1)],
+                          [Fraction(1, 2) if k == d else Fraction(3) if k == 0 else Fraction(-1) if k == 1 else Fraction(0) for k in range(d + 1)]]
+                cs = shapes[(n + m + d) % 2] if tier == 'quick' else None
+                for cs in ([cs] if cs else shapes):
+                    ds = [cs[j + n] * (math.factorial(j + n) // math.factorial(j)) for j in range(len(cs) - n)] if len(cs) > n else [Fraction(0)]
+                    rec = dict(n=n, m=m, coefs=[[c.numerator, c.denominator] for c in cs], dcoefs=[[c.numerator, c.denominator] for c in ds])
+                    for N in {2 * mm + 2, rnd.randint(2 * mm + 3, 40)}:
+                        check_float_case(fb, rec, rnd, rep, stats, N)
     states, trans, per = vlib.merge_tlc([res])
     cov = dict(states=states, transitions=trans, traces_validated_against_impl=stats['calls'] + stats['float_calls'], exhaustive=True,
                samples=[{k: v for k, v in res.records[11].items()}], evaluations=stats['calls'] + stats['float_calls'],
